@@ -3,7 +3,7 @@
 From Coq Require Import List NArith Bool Lia.
 From MV Require Import Base.PyStr Inv.WildModel InvLoad.Regex Gen.Inventory InvLoad.Basics InvLoad.PyText
   InvLoad.Reader InvLoad.Load InvLoad.SphinxInv InvLoad.TableCodec InvLoad.ReaderProofs
-  InvLoad.LoadProofs InvLoad.TextProofs InvLoad.AgreeProofs InvLoad.CodecProofs InvLoad.Utf8Proofs.
+  InvLoad.LoadProofs InvLoad.TextProofs InvLoad.AgreeProofs InvLoad.CodecProofs InvLoad.Utf8Proofs InvLoad.BadLineProofs.
 Import ListNotations.
 Open Scope N_scope.
 
@@ -79,4 +79,47 @@ Theorem oracles_satisfiable :
 Proof.
   split; [exact table_codec_ok|]. split; [exact id_codec_ok|]. split; [|exact utf8_decode_ok].
   intros z out H. inversion H; subst. cbn. split; [reflexivity | apply app_nil_r].
+Qed.
+
+(* ---------------- non-vacuity of the premises (round 4 audit) ---------------- *)
+
+Ltac crlf_tac :=
+  repeat (split; [let H := fresh "H" in intro H; vm_compute in H; first [discriminate H | left; reflexivity] |]); exact I.
+
+(* all premises of C18_agrees_with_sphinx hold together for a concrete file (identity codec, the
+   Gallina UTF-8 decoder, the regex engine on the regenerated pattern) *)
+Theorem agrees_premises_satisfiable :
+  let content := v2_header ++ body_good in
+  Forall (fun l => utf8_decode l <> None) (firstn 4 (bsplit_nl 4 content)) /\
+  (forall text, sphinx_text (fun z => Some z) utf8_decode content = Some text -> crlf_only text) /\
+  (exists sinv, id_sphinx content uri_x = IOk sinv) /\
+  plain_header content.
+Proof.
+  cbv zeta. repeat split.
+  - vm_compute. repeat constructor; discriminate.
+  - intros text H. vm_compute in H. inversion H; subst text. cbn [crlf_only]. crlf_tac.
+  - destruct (id_sphinx (v2_header ++ body_good) uri_x) as [s|e] eqn:E; [eauto | vm_compute in E; discriminate].
+  - vm_compute. repeat constructor.
+Qed.
+
+(* the premises of C18_bad_line_isolated: header lines, two streams, a malformed line in the middle *)
+Theorem bad_line_premises_satisfiable :
+  exists l0 l1 l2 l3 z z' A bad B s,
+    find_nl l0 = None /\ find_nl l1 = None /\ find_nl l2 = None /\ find_nl l3 = None /\
+    (exists s0, utf8_decode l0 = Some s0 /\ rstrip s0 = hdr_v2) /\
+    BadLineProofs.inflates unit tt idstep idflush iderr z (A ++ bad ++ 10 :: B) /\
+    BadLineProofs.inflates unit tt idstep idflush iderr z' (A ++ B) /\
+    BadLineProofs.aligned A /\ find_nl bad = None /\ utf8_decode bad = Some s /\
+    BadLineProofs.v2_malformed match_line_exec s.
+Proof.
+  exists hdr_v2, [35], [35], zlib_marker,
+         ([97; 32; 98; 58; 99; 32; 49; 32; 120; 32; 45; 10] ++ [103; 97; 114; 98; 97; 103; 101] ++ 10 :: [100; 32; 98; 58; 99; 32; 49; 32; 121; 32; 45; 10]),
+         ([97; 32; 98; 58; 99; 32; 49; 32; 120; 32; 45; 10] ++ [100; 32; 98; 58; 99; 32; 49; 32; 121; 32; 45; 10]),
+         [97; 32; 98; 58; 99; 32; 49; 32; 120; 32; 45; 10], [103; 97; 114; 98; 97; 103; 101],
+         [100; 32; 98; 58; 99; 32; 49; 32; 121; 32; 45; 10], [103; 97; 114; 98; 97; 103; 101].
+  repeat split.
+  all: try (vm_compute; reflexivity).
+  all: try (exists hdr_v2; split; vm_compute; reflexivity).
+  all: try (right; exists [97; 32; 98; 58; 99; 32; 49; 32; 120; 32; 45]; reflexivity).
+  all: try (vm_compute; exact I).
 Qed.
